@@ -444,3 +444,102 @@ def unique_children(ctx, res):
                        f"children of a parent graph this raises ValueError "
                        f"for documented strings such as 'a.[b,b]'")
     res.floor(2)
+
+
+# ---------------------------------------------------------------------------
+# C15.metadata-filter: '+name' selects traits whose metadata is defined
+
+@rule("C15.metadata-filter", ["C15"],
+      "'+name' / metadata(name) selects exactly the traits whose metadata "
+      "`name` is not None: the expression builds MetadataFilter(name), and "
+      "the filter tests the CTrait attribute against None (undefined "
+      "metadata reads as None; 0, '' and False are defined values)")
+def metadata_filter(ctx, res):
+    repo = get_pyrepo(ctx)
+    rel = "traits/observation/_metadata_filter.py"
+    mod = repo.module(rel)
+    cls = repo.cls(rel, "MetadataFilter")
+    fn = cls.methods.get("__call__")
+    if fn is None:
+        raise AnalysisError("MetadataFilter.__call__ missing")
+    ps = [a.arg for a in fn.args.args]
+    selfn, traitp = ps[0], ps[2]
+    # the stored attribute
+    init = cls.methods["__init__"]
+    stored = [norm(a.targets[0]) for a in ast.walk(init)
+              if isinstance(a, ast.Assign)
+              and isinstance(a.value, ast.Name)
+              and a.value.id == init.args.args[1].arg]
+    attr = stored[0].split(".", 1)[1] if stored else None
+    rets = [r for r in ast.walk(fn) if isinstance(r, ast.Return)]
+    res.instance("MetadataFilter.__call__", mod.loc(fn), returns=len(rets))
+    local = {a.targets[0].id: a.value for a in ast.walk(fn)
+             if isinstance(a, ast.Assign) and len(a.targets) == 1
+             and isinstance(a.targets[0], ast.Name)}
+
+    def expand(e):
+        while isinstance(e, ast.Name) and e.id in local:
+            e = local[e.id]
+        return e
+
+    def presence(e, positive=True):
+        """True when ``e`` is (equivalent to) `<lookup> is not None`"""
+        e = expand(e)
+        if isinstance(e, ast.UnaryOp) and isinstance(e.op, ast.Not):
+            return presence(e.operand, not positive)
+        if isinstance(e, ast.Compare) and len(e.ops) == 1 \
+                and isinstance(e.comparators[0], ast.Constant) \
+                and e.comparators[0].value is None \
+                and isinstance(e.ops[0], (ast.Is, ast.IsNot)):
+            if isinstance(e.ops[0], ast.IsNot) != positive:
+                return False
+            look = expand(e.left)
+            return isinstance(look, ast.Call) and norm(look.func) == "getattr" \
+                and len(look.args) >= 2 and norm(look.args[0]) == traitp \
+                and norm(look.args[1]) == f"{selfn}.{attr}" \
+                and (len(look.args) == 2 or norm(look.args[2]) == "None")
+        return False
+    for r in rets:
+        res.oblige(r.value is not None and presence(r.value),
+                   "MetadataFilter.__call__:presence", mod.loc(r),
+                   f"the filter returns `{norm(r.value) if r.value else None}`"
+                   f"; a trait matches '+name' iff getattr({traitp}, "
+                   f"{selfn}.{attr}) is not None - a truthiness or equality "
+                   f"test drops traits whose metadata is defined as 0, '', "
+                   f"False or an empty container")
+    # equality/hash over the name (observer identity, graph merging)
+    eq = cls.methods.get("__eq__")
+    hs = cls.methods.get("__hash__")
+    res.oblige(eq is not None and hs is not None
+               and f"{selfn}.{attr}" in {norm(n) for n in ast.walk(eq)}
+               and f"{selfn}.{attr}" in {norm(n) for n in ast.walk(hs)},
+               "MetadataFilter:identity", mod.loc(cls.node),
+               "MetadataFilter equality/hash do not depend on the metadata "
+               "name")
+    # the expression layer builds the filter from the name it was given
+    rel2 = "traits/observation/expression.py"
+    mod2 = repo.module(rel2)
+    n = 0
+    for f in ast.walk(mod2.tree):
+        if isinstance(f, ast.FunctionDef) and f.name == "metadata":
+            n += 1
+            namep = [a.arg for a in f.args.args if a.arg != "self"][0]
+            calls = [c for c in ast.walk(f) if isinstance(c, ast.Call)
+                     and norm(c.func) == "MetadataFilter"]
+            kw = {k.arg: norm(k.value) for c in calls for k in c.keywords}
+            pos = [norm(a) for c in calls for a in c.args]
+            notify = [k for c in ast.walk(f) if isinstance(c, ast.Call)
+                      for k in c.keywords if k.arg == "notify"]
+            key = f"expression.metadata@{f.lineno}"
+            res.instance("expression.metadata", mod2.loc(f))
+            res.oblige(len(calls) == 1 and (kw.get("metadata_name") == namep
+                                            or pos[:1] == [namep]),
+                       "expression.metadata:filter", mod2.loc(f),
+                       f"metadata() does not build MetadataFilter({namep})")
+            res.oblige(bool(notify) and all(norm(k.value) == "notify"
+                                            for k in notify),
+                       "expression.metadata:notify", mod2.loc(f),
+                       "metadata() does not pass its notify flag on")
+    if n < 2:
+        raise AnalysisError("expression.metadata definitions not found")
+    res.floor(3)
